@@ -15,7 +15,16 @@
 (*                                                                         *)
 (* Every message carries  who (the signer)  and  as (Metadata.Creator): the *)
 (* module mints to / burns from / charges / authorises `as`; there is no    *)
-(* separate mint-to or burn-from field in Paloma's messages.                *)
+(* separate mint-to or burn-from field in Paloma's messages.  The ante      *)
+(* decorator accepts who # as exactly when `as` granted `who` a fee         *)
+(* allowance (x/feegrant; Paloma's delegated signing): grants is the set of *)
+(* <<granter, grantee>> pairs, fixed per behaviour (written by genesis).    *)
+(* A delegated message acts for the creator: whatever it does happens to    *)
+(* the creator's denoms, balance and funds, never to the signer's.          *)
+(*                                                                         *)
+(* Reimport is the genesis round trip (every module's ExportGenesis, then   *)
+(* InitGenesis of a fresh application on fresh stores): by definition it    *)
+(* changes nothing of the abstract state.                                   *)
 (*                                                                         *)
 (* Denominations are pairs: <<c, s>> with c in Accounts is                  *)
 (* factory/<address of c>/<sub s>; <<0, k>> are the non-factory ones:       *)
@@ -43,6 +52,7 @@ CONSTANTS Accounts,     \* set of account ids (positive integers)
           Subs,         \* set of sub-denom ids (positive integers)
           Amounts,      \* amounts tried by mint / burn
           Funds,        \* [Accounts -> Nat] creation fees each account can pay at genesis
+          GrantSets,    \* set of possible fee-grant relations (each a set of <<granter, grantee>> pairs)
           NativeMetas,  \* subset of {0, 1}: genesis without / with bank metadata for the native denom
           SpecialIds,   \* ids k of the non-factory denominations <<0, k>> (1 = native)
           MaxOps        \* bound on operations (model checking only)
@@ -52,6 +62,7 @@ VARIABLES denoms,       \* authority metadata: denom -> admin (0 = empty admin),
           supply,       \* bank supply per denom
           bal,          \* bal[d][a] balance of account a
           funds,        \* remaining creation fees per account
+          grants,       \* fee allowances <<granter, grantee>> (never changes)
           minted,       \* monitor: sum of successful mints per denom
           burned,       \* monitor: sum of successful burns per denom
           res,          \* result class of the last action
@@ -59,7 +70,7 @@ VARIABLES denoms,       \* authority metadata: denom -> admin (0 = empty admin),
           nops
 
 svars == <<denoms, bmeta, supply, bal, funds, minted, burned>>
-vars  == <<svars, res, last, nops>>
+vars  == <<svars, grants, res, last, nops>>
 
 NoAdmin  == 0           \* MsgChangeAdmin.NewAdmin = "" (renounce)
 BadAddr  == -1          \* NewAdmin that is not bech32
@@ -81,10 +92,13 @@ MetaOf(d)   == IF d \in DOMAIN bmeta THEN bmeta[d] ELSE -1
 Deconstructs(d) == d \in Factory                                    \* types.DeconstructDenom succeeds
 Ext(f, k, v) == [x \in DOMAIN f \cup {k} |-> IF x = k THEN v ELSE f[x]]
 Rec(a, who, as, c, s, amt, new) == [act |-> a, who |-> who, as |-> as, c |-> c, s |-> s, amt |-> amt, new |-> new]
-Done(r, w) == res' = w /\ last' = r /\ nops' = nops + 1
+Done(r, w) == res' = w /\ last' = r /\ nops' = nops + 1 /\ grants' = grants
+\* x/paloma VerifyAuthorisedSignatureDecorator: signed by the creator, or by somebody holding a fee allowance of the creator
+Authorised(who, as) == who = as \/ <<as, who>> \in grants
 
 -----------------------------------------------------------------------------
-InitWith(m) ==
+InitWith(m, g) ==
+  /\ grants = g
   /\ denoms = [d \in {} |-> 0]
   /\ bmeta = [d \in (IF m = 1 THEN {Native} ELSE {}) |-> 0]
   /\ supply = [d \in AllDenoms |-> 0]        \* native: difference to the genesis supply
@@ -93,13 +107,13 @@ InitWith(m) ==
   /\ minted = [d \in AllDenoms |-> 0]
   /\ burned = [d \in AllDenoms |-> 0]
   /\ res = "init" /\ last = Rec("Init", 0, 0, 0, 0, 0, 0) /\ nops = 0
-Init == \E m \in NativeMetas : InitWith(m)
+Init == \E m \in NativeMetas, g \in GrantSets : InitWith(m, g)
 
 (* MsgCreateDenom: ValidateBasic builds the denom (always fine for these sub-denoms); ante;           *)
 (* validateCreateDenom: bank.HasSupply(subdenom), bank metadata lookup; chargeForCreateDenom;          *)
 (* createDenomAfterValidation.                                                                         *)
 CreateWhy(who, as, sub) ==
-  IF who # as THEN "err"
+  IF ~Authorised(who, as) THEN "err"
   ELSE IF sub = NativeSub THEN "err"
   ELSE IF HasMeta(<<as, sub>>) THEN "exists"
   ELSE IF funds[as] = 0 THEN "funds"
@@ -118,7 +132,7 @@ Create(who, as, sub) ==
 (* MsgMint: ValidateBasic (coin valid, amount > 0); ante; bank metadata must exist; admin comparison;  *)
 (* mintTo: DeconstructDenom, MintCoins, SendCoinsFromModuleToAccount(creator).                          *)
 MintWhy(who, as, d) ==
-  IF who # as THEN "err"
+  IF ~Authorised(who, as) THEN "err"
   ELSE IF ~HasMeta(d) THEN "nodenom"
   ELSE IF as # AdminOf(d) THEN "unauth"
   ELSE IF ~Deconstructs(d) THEN "invalid"
@@ -137,7 +151,7 @@ Mint(who, as, d, amt) ==
 (* MsgBurn: ValidateBasic; ante; admin comparison (no existence check: an unknown denom has the empty  *)
 (* admin); burnFrom: DeconstructDenom, SendCoinsFromAccountToModule(creator), BurnCoins.                *)
 BurnWhy(who, as, d, amt) ==
-  IF who # as THEN "err"
+  IF ~Authorised(who, as) THEN "err"
   ELSE IF as # AdminOf(d) THEN "unauth"
   ELSE IF ~Deconstructs(d) THEN "invalid"
   ELSE IF bal[d][as] < amt THEN "funds"
@@ -157,7 +171,7 @@ Burn(who, as, d, amt) ==
 (* the new admin (empty is allowed).                                                                    *)
 ChangeAdminWhy(who, as, d, new) ==
   IF ~Deconstructs(d) THEN "invalid"
-  ELSE IF who # as THEN "err"
+  ELSE IF ~Authorised(who, as) THEN "err"
   ELSE IF as # AdminOf(d) THEN "unauth"
   ELSE IF new = BadAddr THEN "err"
   ELSE "ok"
@@ -174,7 +188,7 @@ ChangeAdmin(who, as, d, new) ==
 (* comparison; bank.SetDenomMetaData.  The written metadata carries the marker `as`.                   *)
 SetMetadataWhy(who, as, d) ==
   IF ~Deconstructs(d) THEN "invalid"
-  ELSE IF who # as THEN "err"
+  ELSE IF ~Authorised(who, as) THEN "err"
   ELSE IF as # AdminOf(d) THEN "unauth"
   ELSE "ok"
 
@@ -186,8 +200,15 @@ SetMetadata(who, as, d) ==
      ELSE UNCHANGED svars
   /\ Done(Rec("SetMetadata", who, as, d[1], d[2], 0, 0), w)
 
+(* Genesis round trip: ExportGenesis of every module, InitGenesis on a fresh application.  Stuttering on the   *)
+(* whole abstract state: admins (also the renounced ones), supplies, balances, metadata, funds, grants.        *)
+Reimport ==
+  /\ UNCHANGED svars
+  /\ Done(Rec("Reimport", 0, 0, 0, 0, 0, 0), "ok")
+
 Next ==
-  \E who \in Accounts, as \in Accounts :
+  \/ Reimport
+  \/ \E who \in Accounts, as \in Accounts :
      \/ \E sub \in SubsX : Create(who, as, sub)
      \/ \E d \in AllDenoms, amt \in Amounts : Mint(who, as, d, amt) \/ Burn(who, as, d, amt)
      \/ \E d \in AllDenoms, new \in NewAdmins : ChangeAdmin(who, as, d, new)
@@ -229,33 +250,47 @@ Ok  == res' = "ok"
 A   == last'
 Dn  == <<last'.c, last'.s>>
 
-\* only the current admin (as signer and as creator of the message) succeeds with a privileged action, and only on a factory denom
+\* only the current admin succeeds with a privileged action, and only on a factory denom: the message's creator is the
+\* admin, and the signer is the creator or holds the creator's fee allowance (delegated signing)
 OnlyAdminActs == (Ok /\ A.act \in Priv) =>
-  /\ A.who = A.as /\ Dn \in DOMAIN denoms /\ denoms[Dn] = A.who /\ Dn \in Factory
-\* balances move only by the admin's own successful mint / burn, by exactly the amount
+  /\ Authorised(A.who, A.as) /\ Dn \in DOMAIN denoms /\ denoms[Dn] = A.as /\ Dn \in Factory
+\* balances move only by a successful mint / burn of the admin, by exactly the amount, and it is the ADMIN's
+\* (the message creator's) balance that moves -- never the balance of a delegated signer
 OwnBalanceOnly == \A d \in AllDenoms, a \in Accounts :
   bal'[d][a] # bal[d][a] =>
-     /\ Ok /\ A.act \in {"Mint", "Burn"} /\ d = Dn /\ a = A.who /\ AdminOf(d) = a
+     /\ Ok /\ A.act \in {"Mint", "Burn"} /\ d = Dn /\ a = A.as /\ AdminOf(d) = a
      /\ bal'[d][a] = bal[d][a] + (IF A.act = "Mint" THEN A.amt ELSE 0 - A.amt)
 \* the admin role changes hands only through the current admin's ChangeAdmin; known denoms stay known
 AdminHandover ==
   /\ DOMAIN denoms \subseteq DOMAIN denoms'
   /\ \A d \in DOMAIN denoms : denoms'[d] # denoms[d] =>
-       /\ Ok /\ A.act = "ChangeAdmin" /\ d = Dn /\ denoms[d] = A.who /\ A.who = A.as /\ denoms'[d] = A.new
+       /\ Ok /\ A.act = "ChangeAdmin" /\ d = Dn /\ denoms[d] = A.as /\ Authorised(A.who, A.as) /\ denoms'[d] = A.new
 \* a new denom appears only by its creator's Create, is exactly <<creator, sub>>, with the creator as admin, and did not exist
 CreateNamespace ==
   /\ \A d \in DOMAIN denoms' \ DOMAIN denoms :
-       /\ Ok /\ A.act = "Create" /\ A.who = A.as /\ d = <<A.who, A.s>> /\ A.s \in Subs
-       /\ denoms'[d] = A.who /\ ~HasMeta(d) /\ supply[d] = 0
+       /\ Ok /\ A.act = "Create" /\ Authorised(A.who, A.as) /\ d = <<A.as, A.s>> /\ A.s \in Subs
+       /\ denoms'[d] = A.as /\ ~HasMeta(d) /\ supply[d] = 0
   /\ (Ok /\ A.act = "Create") =>
-       /\ <<A.who, A.s>> \notin DOMAIN denoms /\ <<A.who, A.s>> \in DOMAIN denoms'
+       /\ <<A.as, A.s>> \notin DOMAIN denoms /\ <<A.as, A.s>> \in DOMAIN denoms'
        /\ Cardinality(DOMAIN denoms') = Cardinality(DOMAIN denoms) + 1
 \* bank metadata changes only by the admin's SetMetadata or by the creation itself
 MetadataByAdmin == \A d \in AllDenoms :
   MetaOf(d)' # MetaOf(d) =>
      /\ Ok
-     /\ \/ A.act = "SetMetadata" /\ d = Dn /\ AdminOf(d) = A.who /\ A.who = A.as /\ MetaOf(d)' = A.who
-        \/ A.act = "Create" /\ d = <<A.who, A.s>> /\ d \notin DOMAIN denoms /\ MetaOf(d)' = 0
+     /\ \/ A.act = "SetMetadata" /\ d = Dn /\ AdminOf(d) = A.as /\ Authorised(A.who, A.as) /\ MetaOf(d)' = A.as
+        \/ A.act = "Create" /\ d = <<A.as, A.s>> /\ d \notin DOMAIN denoms /\ MetaOf(d)' = 0
+\* the creation fee is the creator's, a delegated signer pays nothing; funds move in no other way
+FeeFromCreator == \A a \in Accounts :
+  funds'[a] # funds[a] => (Ok /\ A.act = "Create" /\ a = A.as /\ funds'[a] = funds[a] - 1)
+\* the genesis round trip changes nothing
+ReimportPreserves == A.act = "Reimport" => UNCHANGED <<denoms, bmeta, supply, bal, funds, grants>>
+\* ... split for the trace monitors: everything but metadata, and metadata; MetadataResetOnly describes the one shape
+\* of metadata change a round trip is known to make on the pinned tree (known finding): the metadata the admin wrote for a
+\* stored factory denom falls back to the bare record of the creation
+ReimportKeepsRecords  == A.act = "Reimport" => UNCHANGED <<denoms, supply, bal, funds, grants>>
+ReimportKeepsMetadata == A.act = "Reimport" => UNCHANGED bmeta
+MetadataResetOnly == \A d \in AllDenoms : MetaOf(d)' # MetaOf(d) =>
+                        (d \in DOMAIN denoms /\ d \in Factory /\ MetaOf(d) \in Accounts /\ MetaOf(d)' = 0)
 \* a rejected message changes nothing
 FailureIsNoop == ~Ok => UNCHANGED <<denoms, bmeta, supply, bal>>
 
@@ -265,4 +300,6 @@ PA_AdminHandover   == [][AdminHandover]_vars
 PA_CreateNamespace == [][CreateNamespace]_vars
 PA_MetadataByAdmin == [][MetadataByAdmin]_vars
 PA_FailureIsNoop   == [][FailureIsNoop]_vars
+PA_FeeFromCreator  == [][FeeFromCreator]_vars
+PA_ReimportPreserves == [][ReimportPreserves]_vars
 =============================================================================
